@@ -1,7 +1,7 @@
 (* C18 -- Casting follows Spark's conversion rules for all values.
    Only statements, each closed by [exact] of a lemma from PV.Proofs.Cast. *)
 From Coq Require Import ZArith NArith List Bool String PrimFloat.
-Require Import PV.Base.Val PV.Gen.Casts PV.Model.Cast PV.Proofs.Cast.
+Require Import PV.Base.Val PV.Gen.Casts PV.Model.Cast PV.Proofs.Cast PV.Proofs.CastStrings.
 Import ListNotations.
 Open Scope Z_scope.
 
@@ -56,6 +56,22 @@ Proof. exact bool_string_roundtrip. Qed.
 Theorem C18_valid_date : forall y m d,
   valid_date y m d = true <-> 1 <= y <= 9999 /\ 1 <= m <= 12 /\ 1 <= d <= days_in_month y m.
 Proof. exact valid_date_spec. Qed.
+
+(* a number cast to string and back is the original value: str(int) then int(str), for EVERY integer *)
+Theorem C18_int_str_roundtrip : forall z, py_int_of_str (str_of_int z) = Some z.
+Proof. exact int_str_roundtrip. Qed.
+Theorem C18_int_string_roundtrip : forall t lo hi z,
+  bounds t = Some (lo, hi) -> lo <= z <= hi -> cast TString t (cast t TString (VInt z)) = VInt z.
+Proof. exact int_string_roundtrip. Qed.
+
+(* yyyy-m-d made of digits (4, 1-2 and 1-2 of them) is that calendar date when it exists, null otherwise *)
+Theorem C18_date_ymd : forall sy sm sd,
+  all_digits sy -> all_digits sm -> all_digits sd ->
+  List.length sy = 4%nat -> (1 <= List.length sm <= 2)%nat -> (1 <= List.length sd <= 2)%nat ->
+  cast TString TDate (VStr (sy ++ 45%N :: sm ++ 45%N :: sd)) =
+    if valid_date (dval sy 0) (dval sm 0) (dval sd 0)
+    then VTup [VInt (dval sy 0); VInt (dval sm 0); VInt (dval sd 0)] else VNone.
+Proof. exact date_ymd. Qed.
 
 (* non-vacuity / sanity on the doctest-style inputs *)
 Example wrap_examples :
